@@ -535,41 +535,56 @@ theorem fmt0_ofInt (n : Int) (h : n.natAbs < 2 ^ 53) : fmt0 (ofInt n) = decInt n
 
 /-! ### lines -/
 
-theorem splitLines_append (l rest : Bytes) (h : 10 ∉ l) :
-    splitLines (l ++ 10 :: rest) = l :: splitLines rest := by
-  induction l with
-  | nil => simp [splitLines]
-  | cons b bs ih =>
-    have hb : b ≠ 10 := fun e => h (by simp [e])
-    have hbs : 10 ∉ bs := fun e => h (by simp [e])
-    simp [splitLines, hb, ih hbs]
+theorem scanLines_lf (bs : Bytes) : scanLines (10 :: bs) = [] :: scanLines bs := by
+  cases bs with
+  | nil => simp [scanLines]
+  | cons c cs => rw [scanLines]; simp
 
-theorem splitLines_unlines (ls : List Bytes) (h : ∀ l ∈ ls, 10 ∉ l) : splitLines (unlines ls) = ls := by
-  induction ls with
-  | nil => rfl
-  | cons l ls ih =>
-    rw [unlines, splitLines_append l _ (h l (by simp)), ih (fun l' hl' => h l' (by simp [hl']))]
+theorem scanLines_crlf (bs : Bytes) : scanLines (13 :: 10 :: bs) = [] :: scanLines bs := by
+  rw [scanLines]; simp
 
-theorem dropCR_of_not_mem (l : Bytes) (h : 13 ∉ l) : dropCR l = l := by
+theorem scanLines_cr (bs : Bytes) (h : bs.head? ≠ some 10) : scanLines (13 :: bs) = [] :: scanLines bs := by
+  cases bs with
+  | nil => simp [scanLines]
+  | cons c cs =>
+    have hc : c ≠ 10 := by intro e; apply h; simp [e]
+    rw [scanLines]; simp [hc]
+
+theorem scanLines_plain (b : Nat) (bs : Bytes) (h10 : b ≠ 10) (h13 : b ≠ 13) :
+    scanLines (b :: bs) = match scanLines bs with
+      | [] => [[b]]
+      | l :: ls => (b :: l) :: ls := by
+  cases bs with
+  | nil => simp [scanLines, h10, h13]
+  | cons c cs => rw [scanLines, if_neg h10, if_neg h13]; cases scanLines (c :: cs) <;> rfl
+
+/-- the three line ends -/
+def IsTerm (t : Bytes) : Prop := t = [10] ∨ t = [13, 10] ∨ t = [13]
+
+/-- a line without line-end bytes, a line end and the rest: the line is split off; after a bare
+`\r` the rest must not start with `\n` (the two would be one `\r\n`) -/
+theorem scanLines_line (l t rest : Bytes) (hl : 10 ∉ l ∧ 13 ∉ l) (ht : IsTerm t)
+    (hr : t = [13] → rest.head? ≠ some 10) : scanLines (l ++ t ++ rest) = l :: scanLines rest := by
   induction l with
-  | nil => rfl
+  | nil =>
+    rcases ht with rfl | rfl | rfl
+    · exact scanLines_lf rest
+    · exact scanLines_crlf rest
+    · exact scanLines_cr rest (hr rfl)
   | cons b bs ih =>
-    cases bs with
-    | nil =>
-      have hb : b ≠ 13 := fun e => h (by simp [e])
-      simp [dropCR, hb]
-    | cons c cs =>
-      have : 13 ∉ c :: cs := fun e => h (by simp [e])
-      simp [dropCR, ih this]
+    have hb10 : b ≠ 10 := fun e => hl.1 (by simp [e])
+    have hb13 : b ≠ 13 := fun e => hl.2 (by simp [e])
+    have hbs : 10 ∉ bs ∧ 13 ∉ bs := ⟨fun e => hl.1 (by simp [e]), fun e => hl.2 (by simp [e])⟩
+    simp only [List.cons_append]
+    rw [scanLines_plain b _ hb10 hb13, ih hbs]
 
 theorem scanLines_unlines (ls : List Bytes) (h : ∀ l ∈ ls, 10 ∉ l ∧ 13 ∉ l) : scanLines (unlines ls) = ls := by
-  unfold scanLines
-  rw [splitLines_unlines ls (fun l hl => (h l hl).1)]
   induction ls with
   | nil => rfl
   | cons l ls ih =>
-    simp only [List.map_cons]
-    rw [dropCR_of_not_mem l (h l (by simp)).2, ih (fun l' hl' => h l' (by simp [hl']))]
+    have := scanLines_line l [10] (unlines ls) (h l (by simp)) (Or.inl rfl) (fun e => absurd e (by decide))
+    simp only [List.append_assoc, List.singleton_append] at this
+    rw [unlines, this, ih (fun l' hl' => h l' (by simp [hl']))]
 
 /-! ### fields -/
 
@@ -3360,33 +3375,135 @@ theorem WF_roundM (m : Metrics) (h : WF m) : WF (roundM m) := by
       rw [lookup_map_roundE]; exact h
 
 
-/-! ## part 6: `\r\n` line ends -/
+/-! ## part 6: `\r\n` and `\r` line ends -/
 
 /-- the same lines, each ended by `\r\n` -/
 def unlinesCRLF : List Bytes → Bytes
   | [] => []
   | l :: ls => l ++ 13 :: 10 :: unlinesCRLF ls
 
-theorem dropCR_snoc (l : Bytes) : dropCR (l ++ [13]) = l := by
-  induction l with
-  | nil => rfl
-  | cons b bs ih =>
-    cases bs with
-    | nil => simp [dropCR]
-    | cons c cs =>
-      simp only [List.cons_append] at ih ⊢
-      rw [dropCR, ih]
-
 theorem scanLines_unlinesCRLF (ls : List Bytes) (h : ∀ l ∈ ls, 10 ∉ l ∧ 13 ∉ l) :
     scanLines (unlinesCRLF ls) = ls := by
-  unfold scanLines
   induction ls with
   | nil => rfl
   | cons l ls ih =>
-    have hl := h l (by simp)
-    have e : unlinesCRLF (l :: ls) = (l ++ [13]) ++ 10 :: unlinesCRLF ls := by simp [unlinesCRLF]
-    have h10 : 10 ∉ l ++ [13] := by simp [hl.1]
-    rw [e, splitLines_append _ _ h10, List.map_cons, dropCR_snoc, ih (fun l' hl' => h l' (by simp [hl']))]
+    have := scanLines_line l [13, 10] (unlinesCRLF ls) (h l (by simp)) (Or.inr (Or.inl rfl))
+      (fun e => absurd e (by decide))
+    simp only [List.append_assoc, List.cons_append, List.nil_append] at this
+    rw [unlinesCRLF, this, ih (fun l' hl' => h l' (by simp [hl']))]
+
+/-- the same lines, each ended by a bare `\r` (classic Mac OS) -/
+def unlinesCR : List Bytes → Bytes
+  | [] => []
+  | l :: ls => l ++ 13 :: unlinesCR ls
+
+theorem unlinesCR_head (ls : List Bytes) (h : ∀ l ∈ ls, 10 ∉ l ∧ 13 ∉ l) : (unlinesCR ls).head? ≠ some 10 := by
+  cases ls with
+  | nil => simp [unlinesCR]
+  | cons l ls =>
+    have hl := (h l (by simp)).1
+    cases l with
+    | nil => simp [unlinesCR]
+    | cons b bs =>
+      have : b ≠ 10 := fun e => hl (by simp [e])
+      simp [unlinesCR, this]
+
+theorem scanLines_unlinesCR (ls : List Bytes) (h : ∀ l ∈ ls, 10 ∉ l ∧ 13 ∉ l) :
+    scanLines (unlinesCR ls) = ls := by
+  induction ls with
+  | nil => rfl
+  | cons l ls ih =>
+    have hrest : ∀ l' ∈ ls, 10 ∉ l' ∧ 13 ∉ l' := fun l' hl' => h l' (by simp [hl'])
+    have := scanLines_line l [13] (unlinesCR ls) (h l (by simp)) (Or.inr (Or.inr rfl))
+      (fun _ => unlinesCR_head ls hrest)
+    simp only [List.append_assoc, List.singleton_append] at this
+    rw [unlinesCR, this, ih hrest]
+
+/-- `Write`'s output with bare `\r` line ends -/
+def writeCR (m : Metrics) : Bytes := unlinesCR (writeLinesWith m (italicText m.italicAngle))
+
+/-- the reader does not see the difference between `\n` and `\r` in a written file -/
+theorem readCore_writeCR (m : Metrics) (h : WF m) : readCore (writeCR m) = readCore (write m) := by
+  have hia : NoNL (italicText m.italicAngle) := NoNL_plain _ (italicText_plain _)
+  unfold readCore writeCR write
+  rw [scanLines_unlinesCR _ (lines_NoNL m h _ hia), scanLines_unlines _ (lines_NoNL m h _ hia)]
+
+/-- lines joined with one line end each -/
+def joinWith : List Bytes → List Bytes → Bytes
+  | l :: ls, t :: ts => l ++ t ++ joinWith ls ts
+  | _, _ => []
+
+/-- the one combination that is not three line ends but two: a bare `\r`, then an empty line ended
+by `\n`, reads as one `\r\n` -/
+def NoMerge : List Bytes → List Bytes → Prop
+  | _ :: l2 :: ls, t1 :: t2 :: ts => ¬ (t1 = [13] ∧ l2 = [] ∧ t2 = [10]) ∧ NoMerge (l2 :: ls) (t2 :: ts)
+  | _, _ => True
+
+theorem joinWith_head (ls ts : List Bytes) (hl : ∀ l ∈ ls, 10 ∉ l ∧ 13 ∉ l) (ht : ∀ t ∈ ts, IsTerm t)
+    (h : (joinWith ls ts).head? = some 10) :
+    ∃ ls' ts', ls = [] :: ls' ∧ ts = [10] :: ts' := by
+  cases ls with
+  | nil => simp [joinWith] at h
+  | cons l ls' =>
+    cases ts with
+    | nil => simp [joinWith] at h
+    | cons t ts' =>
+      cases l with
+      | cons b bs =>
+        have : b ≠ 10 := fun e => (hl (b :: bs) (by simp)).1 (by simp [e])
+        simp [joinWith, this] at h
+      | nil =>
+        rcases ht t (by simp) with rfl | rfl | rfl
+        · exact ⟨ls', ts', rfl, rfl⟩
+        · simp [joinWith] at h
+        · simp [joinWith] at h
+
+/-- any choice of line ends – `\n`, `\r\n`, `\r`, also mixed – gives the same lines back -/
+theorem scanLines_joinWith (ls : List Bytes) : ∀ (ts : List Bytes), ls.length = ts.length →
+    (∀ l ∈ ls, 10 ∉ l ∧ 13 ∉ l) → (∀ t ∈ ts, IsTerm t) → NoMerge ls ts →
+    scanLines (joinWith ls ts) = ls := by
+  induction ls with
+  | nil => intro ts _ _ _ _; cases ts <;> rfl
+  | cons l ls ih =>
+    intro ts hlen hl ht hnm
+    cases ts with
+    | nil => simp at hlen
+    | cons t ts' =>
+      have hlen' : ls.length = ts'.length := by simpa using hlen
+      have hl' : ∀ l' ∈ ls, 10 ∉ l' ∧ 13 ∉ l' := fun l' h' => hl l' (by simp [h'])
+      have ht' : ∀ t' ∈ ts', IsTerm t' := fun t' h' => ht t' (by simp [h'])
+      have hnm' : NoMerge ls ts' := by
+        cases ls with
+        | nil => cases ts' <;> simp [NoMerge]
+        | cons l2 ls2 =>
+          cases ts' with
+          | nil => simp at hlen'
+          | cons t2 ts2 => exact hnm.2
+      have hr : t = [13] → (joinWith ls ts').head? ≠ some 10 := by
+        intro e hh
+        obtain ⟨ls2, ts2, e1, e2⟩ := joinWith_head ls ts' hl' ht' hh
+        subst e1 e2 e
+        exact hnm.1 ⟨rfl, rfl, rfl⟩
+      rw [joinWith, scanLines_line l t _ (hl l (by simp)) (ht t (by simp)) hr, ih ts' hlen' hl' ht' hnm']
+
+/-- without empty lines nothing can merge -/
+theorem noMerge_of_nonempty (ls : List Bytes) : ∀ (ts : List Bytes), (∀ l ∈ ls, l ≠ []) → NoMerge ls ts := by
+  induction ls with
+  | nil => intro ts _; cases ts <;> simp [NoMerge]
+  | cons l ls ih =>
+    intro ts h
+    cases ls with
+    | nil => cases ts with
+      | nil => simp [NoMerge]
+      | cons t ts => cases ts <;> simp [NoMerge]
+    | cons l2 ls2 =>
+      cases ts with
+      | nil => simp [NoMerge]
+      | cons t ts =>
+        cases ts with
+        | nil => simp [NoMerge]
+        | cons t2 ts2 =>
+          refine ⟨fun hh => h l2 (by simp) hh.2.1, ih (t2 :: ts2) (fun l' h' => h l' (by simp [h']))⟩
 
 /-- `Write`'s output with `\r\n` line ends -/
 def writeCRLF (m : Metrics) : Bytes := unlinesCRLF (writeLinesWith m (italicText m.italicAngle))
